@@ -20,6 +20,7 @@ import (
 
 	"verif/internal/hx"
 	"verif/ref/refesl"
+	"verif/weakeq"
 )
 
 func init() {
@@ -394,6 +395,20 @@ func c17Run(c *hx.Ctx, tier, unit string) {
 				set = append(set, guidFromBE(b[:]))
 			}
 		}
+		// values that a comparison weaker than equality (checksum, fold, prefix) takes for a base value,
+		// over the textual byte order and over the wire byte order
+		for _, bg := range bgs {
+			for _, tw := range weakeq.Twins(bg[:]) {
+				set = append(set, guidFromBE(tw.Value))
+			}
+			w := unwireBytes(bg)
+			for _, tw := range weakeq.Twins(w[:]) {
+				var wv [16]byte
+				copy(wv[:], tw.Value)
+				back := unwireBytes(wv)
+				set = append(set, guidFromBE(back[:]))
+			}
+		}
 		for i := 0; len(set) < 600; i++ {
 			b := bgs[2]
 			b[i%16] = byte(i * 37)
@@ -464,4 +479,10 @@ func c17Run(c *hx.Ctx, tier, unit string) {
 			}
 		}
 	}
+}
+
+// unwireBytes swaps between the textual (big-endian fields) and the wire (little-endian fields) byte
+// order of a GUID; the swap is its own inverse.
+func unwireBytes(b [16]byte) [16]byte {
+	return [16]byte{b[3], b[2], b[1], b[0], b[5], b[4], b[7], b[6], b[8], b[9], b[10], b[11], b[12], b[13], b[14], b[15]}
 }
